@@ -5,7 +5,7 @@ run on controlled threads; every schedule within a deviation bound from the defa
 executed (a deviation = a preemption, or a non-default successor at a forced switch).  Scenarios S1-S4
 (both select-hub modes) plus S5, the cooperative Lock, explored sequentially with E-seq.
 """
-import gc, itertools, sys
+import collections, gc, itertools, sys
 from mc.engine import explore, pmap, Ctx
 from mc.report import Report
 
@@ -246,6 +246,244 @@ def s_idle (ctx, p):
 SCEN = dict(calllater=s_calllater, wake=s_wake, sync=s_sync, idle=s_idle)
 
 
+# ---- S6: piles of hand-overs on the library's real pinger, scheduler driven step by step ------------------
+# The question here is not the interleaving (S1) but HOW MANY hand-overs are pending when the call-later task wakes
+# up, where they come from and in which phase of the task they arrive: the functions are handed over while the
+# scheduler does not run (it is stepped by hand on the calling thread, inline select hub), so no schedule choice is
+# left and a pile of tens of thousands of calls costs milliseconds instead of a thread switch per call.
+PIPE_CAP = 65536          # what a pipe holds; a write beyond it would block the writer
+
+
+class Quiescent (Exception):
+  """select() would block: nothing is ready and nothing is readable - the scheduler would now sleep until its polling
+  timeout."""
+
+
+class SeqPipes (object):
+  """Stands in for `os` inside pox.lib.util (as FakeOS does) without a thread explorer behind it."""
+  name = "posix"
+  def __init__ (self):
+    self.pipes = {}; self.next = 10 ** 6; self.overflow = False; self.empty_reads = 0; self.reads = 0
+  def pipe (self):
+    r, w = self.next, self.next + 1; self.next += 2
+    buf = [0]
+    self.pipes[r] = buf; self.pipes[w] = buf
+    return (r, w)
+  def write (self, fd, data):
+    buf = self.pipes[fd]
+    if buf[0] + len(data) > PIPE_CAP:
+      self.overflow = True
+      raise BlockingIOError("write to a full pipe")
+    buf[0] += len(data); return len(data)
+  def read (self, fd, n):
+    buf = self.pipes[fd]
+    self.reads += 1
+    if buf[0] == 0:
+      self.empty_reads += 1
+      raise BlockingIOError("read of an empty pipe")
+    k = min(n, buf[0]); buf[0] -= k
+    return b" " * k
+  def close (self, fd): pass
+  def readable (self, o):
+    b = self.pipes.get(o.fileno() if hasattr(o, "fileno") else o); return bool(b and b[0] > 0)
+  def __getattr__ (self, n):
+    import os as _os
+    return getattr(_os, n)
+
+
+class SeqSelect (object):
+  error = OSError
+  def __init__ (self, fos): self.fos = fos
+  def select (self, r, w, x, timeout=None):
+    ro = [o for o in r if self.fos.readable(o)]
+    if not ro: raise Quiescent()
+    return ro, [], []
+
+
+def pile_lattice (top):
+  return sorted(set([1, 2, 3] + [2 ** k + d for k in range(2, 17) for d in (-1, 0, 1) if 2 ** k + d <= top]))
+
+
+def s_pile (plan):
+  """plan: [(source, n, gap)...] - `source' hands over n pieces of work, then the scheduler makes `gap' steps (None:
+  runs until it would sleep) before the next burst; after the last one it runs until it would sleep.
+  Sources of call-later functions: thread = a foreign thread (started and joined while the scheduler stands still);
+  task = a cooperative task in one slice; nested = a handed-over function (handed over by a foreign thread) from inside
+  the drain loop.  Sources of task wake-ups, both from a foreign thread: start = n new tasks (start(fast=True));
+  wake = schedule(t) for n tasks that sit blocked."""
+  import threading, queue, types
+  from mc.env import boot, VClock
+  boot()
+  import pox.lib.recoco.recoco as R, pox.lib.util as U
+  fos = SeqPipes()
+  R.threading = threading; R.Thread = threading.Thread; R.Queue = queue.Queue; R.time = VClock()
+  R.print = lambda *a, **k: None
+  R.traceback = types.SimpleNamespace(print_exc=lambda *a, **k: None, format_exc=lambda *a, **k: "")
+  U.os = fos; U.makePinger = U.make_pinger
+  R.select = SeqSelect(fos)
+  try:
+    sch = R.Scheduler(isDefaultScheduler=True, startInThread=False, threaded_selecthub=False)
+    R.defaultScheduler = sch
+    me = threading.current_thread()
+    sch._thread = me                      # the thread that steps the scheduler is the scheduler thread
+    hub = sch._selectHub
+    ran = []; wrong = []
+    def f (tag):
+      ran.append(tag)
+      if threading.current_thread() is not me: wrong.append(tag)
+    st = dict(steps=0)
+    def drive (limit):
+      """-> True when the scheduler would sleep"""
+      n = 0
+      while limit is None or n < limit:
+        if st["steps"] > budget: return False
+        st["steps"] += 1; n += 1
+        if len(sch._ready): sch.cycle()
+        else:
+          try: hub.idle()
+          except Quiescent: return True
+      return False
+    total = sum(n for _, n, _ in plan)
+    budget = 200 + 50 * len(plan) + 4 * total
+    class Burst (R.BaseTask):
+      def run (self, b, n):
+        burst(b, n)
+        yield False
+    class One (R.BaseTask):
+      def run (self, tag):
+        f(tag)
+        yield False
+    class Sleeper (R.BaseTask):
+      def run (self, tag):
+        yield False                       # blocked until somebody schedules it
+        while True:
+          f(tag)
+          yield False
+    def burst (b, n):
+      try:
+        for j in range(n): sch.callLater(f, (b, j))
+      except BlockingIOError:
+        pass                              # recorded by the pipe model (overflow)
+    def starts (b, n):
+      try:
+        for j in range(n): One((b, j)).start(sch, fast=True)
+      except BlockingIOError:
+        pass
+    def wakes (ts):
+      try:
+        for t in ts: sch.schedule(t)
+      except BlockingIOError:
+        pass
+    sleepers = {}
+    for b, (src, n, gap) in enumerate(plan):
+      if src == "wake":
+        sleepers[b] = [Sleeper((b, j)) for j in range(n)]
+        for t in sleepers[b]: t.start(sch, fast=True)
+    if sleepers:
+      budget += 4 * total
+      drive(None)                         # every sleeper has made its first step and sits blocked
+    for b, (src, n, gap) in enumerate(plan):
+      if src == "task":
+        Burst(b, n).start(sch, fast=True)
+      else:
+        tgt, args = dict(thread=(burst, (b, n)), nested=(sch.callLater, (burst, b, n)), start=(starts, (b, n)),
+                         wake=(wakes, (sleepers.get(b),)))[src]
+        th = threading.Thread(target=tgt, args=args); th.start(); th.join()
+      if b < len(plan) - 1: drive(gap)
+    quiet = drive(None)
+    obs = (len(ran), fos.reads)
+    kind = dict(thread="calllater", task="calllater", nested="calllater", start="idle", wake="wake")
+    if fos.overflow: return ("calllater:pipe-overflow", "more than %d bytes pending in a wake-up pipe: the writer would block" % PIPE_CAP), obs
+    if len(ran) != len(set(ran)):
+      twice = sorted(set(t for t in ran if ran.count(t) > 1))[0] if len(ran) < 5000 else [t for t, c in collections.Counter(ran).items() if c > 1][0]
+      src = plan[twice[0]][0]
+      if src == "wake": return ("wake:queued-twice", "a task woken once with schedule() ran twice"), obs
+      return (kind[src] + ":ran-twice", "a %s ran twice" % ("function handed over with callLater" if kind[src] == "calllater" else "new task"),), obs
+    if not quiet: return ("calllater:step-limit", "the scheduler did not come to rest within %d steps; %d of %d pieces of work ran" % (budget, len(ran), total)), obs
+    if len(ran) != total:
+      got = collections.Counter(t[0] for t in ran)
+      b = [i for i, (_, n, _) in enumerate(plan) if got.get(i, 0) != n][0]
+      return (kind[plan[b][0]] + ":lost-wakeup", "the scheduler is idle (nothing ready, no descriptor readable: it would sleep until its polling timeout) "
+              "but %d of %d %s have not run%s" % (total - len(ran), total, "handed-over functions" if kind[plan[b][0]] == "calllater" else "woken tasks",
+                                                "; a wake-up pipe was read while empty" if fos.empty_reads else "")), obs
+    if wrong: return ("calllater:wrong-thread", "a callLater function or a task ran outside the scheduler thread"), obs
+    for b in range(len(plan)):
+      if kind[plan[b][0]] != "calllater": continue       # the statement orders handed-over functions only
+      mine = [t[1] for t in ran if t[0] == b]
+      if mine != sorted(mine): return ("calllater:order", "burst %d's functions ran out of order" % b), obs
+    return None, obs
+  finally:
+    import os as _realos
+    U.os = _realos
+
+
+def pile_plans (quick):
+  ps = []
+  srcs = ("thread", "task", "nested")
+  # one pile: every size of the boundary lattice up to a pipe's capacity
+  for src in srcs + ("start", "wake"):
+    # (piles of tasks stop at 4097: the library's ready-queue membership tests make them quadratic)
+    for n in pile_lattice(PIPE_CAP if src in srcs else 4097):
+      ps.append(((src, n, None),))
+  # two piles, the second arriving in every phase of the handling of the first
+  sizes = (1, 1023, 1024, 1025, 2049) if quick else (1, 2, 3, 1023, 1024, 1025, 2047, 2048, 2049, 4097)
+  gaps = tuple(range(0, 9)) + (None,)
+  pairs = (("thread", "thread"), ("thread", "task"), ("task", "thread"), ("nested", "thread"), ("start", "thread"), ("thread", "wake"))
+  if not quick: pairs = tuple(itertools.product(srcs + ("start", "wake"), repeat=2))
+  tsizes = (1, 1024, 1025) if quick else (1, 2, 1023, 1024, 1025, 2049)
+  for sa, sb in pairs:
+    # (piles of tasks are quadratic in the library: fewer sizes for them, and in the quick tier fewer phases)
+    tasky = sa not in srcs or sb not in srcs
+    for a in (sizes if sa in srcs else tsizes):
+      for b in (sizes if sb in srcs else tsizes):
+        for g in ((0, 2, 4, 6, None) if (tasky and quick) else gaps):
+          ps.append(((sa, a, g), (sb, b, None)))
+  if not quick:
+    for a, b, c in itertools.product((1, 1024, 1025), repeat=3):
+      for g1 in (0, 2, 4, 5, None):
+        for g2 in (0, 2, 4, 5, None):
+          ps.append((("thread", a, g1), ("thread", b, g2), ("thread", c, None)))
+  return ps
+
+
+def pile_name (plan):
+  return "pile/inline-hub/real-pinger/" + "+".join(s for s, _, _ in plan)
+
+
+def _pile_worker (plans):
+  rep = Report(PID, "model_checking")
+  for plan in plans:
+    bad, obs = s_pile(plan)
+    rep.evaluations += 1
+    rep.transitions += sum(n for _, n, _ in plan)
+    kk = "execs:" + pile_name(plan)
+    rep.extra[kk] = rep.extra.get(kk, 0) + 1
+    rep.outcome(("pile", plan, bad and bad[0], obs))
+    if bad:
+      rep.violation("%s:%s:inline-hub" % (PID, bad[0]), "%s [piles (source, functions, scheduler steps before the next): %r]" % (bad[1], plan),
+                    dict(pile=True, plan=[list(b) for b in plan]))
+    if len(plan) == 1 and plan[0][1] == 1025:
+      rep.sample(dict(scenario=pile_name(plan), plan=plan, verdict=bad and bad[0], functions_run=obs[0], pipe_reads=obs[1]))
+  rep.state_count = rep.evaluations
+  return rep
+
+
+def run_piles (cfg):
+  rep = Report(PID, "model_checking")
+  ps = pile_plans(cfg.quick)
+  if cfg.only and "pile" not in cfg.only: return rep
+  # balance: the big piles first, each its own item
+  ps.sort(key=lambda p: -sum(n for _, n, _ in p))
+  big = [[p] for p in ps if sum(n for _, n, _ in p) >= 8192]
+  small = [p for p in ps if sum(n for _, n, _ in p) < 8192]
+  nchunk = max(1, cfg.workers * 4)
+  items = big + [small[i::nchunk] for i in range(nchunk) if small[i::nchunk]]
+  for r in pmap(_pile_worker, items, cfg.workers, seed=cfg.seed):
+    rep.merge(r)
+  rep.extra["pile_plans"] = len(ps)
+  return rep
+
+
 def configs (quick):
   cs = []
   for threaded in (True, False):
@@ -270,8 +508,14 @@ def configs (quick):
         cs.append(dict(base, bound=2 if threaded else 1, real_pinger=True, calls=3))
         # a pile of hand-overs around the pinger's read size (pong_all reads 1024 bytes at a time): default schedule
         # only (the foreign thread hands everything over while the scheduler sleeps)
-        for n in ((1024,) if quick else (1023, 1024, 1025, 2048)):
-          cs.append(dict(base, bound=0, real_pinger=True, threads=1, calls=n, max_points=400000))
+        # (the same piles, and far more of them, are run without threads in S6 - inline hub only; these are the
+        #  threaded-hub counterpart and the cross-check of S6's pipe model)
+        for n in ((1023, 1024, 1025, 2049, 4097) if quick else (1023, 1024, 1025, 2047, 2048, 2049, 4095, 4096, 4097, 8193, 16385)):
+          cs.append(dict(base, bound=0, real_pinger=True, threads=1, calls=n, max_points=400000 + 30 * n))
+        # two foreign threads with a pile each: every schedule with one deviation would be ~10^4 executions of 10^4
+        # points; the default schedule and the rotated one
+        cs.append(dict(base, bound=0, real_pinger=True, threads=2, calls=1025, max_points=400000))
+        cs.append(dict(base, bound=0, real_pinger=True, threads=2, calls=1025, max_points=400000, rotate=True))
       # every line of recoco.py as a scheduling point, one deviation
       cs.append(dict(base, funcs=None, bound=1))
       if not quick:
@@ -300,7 +544,7 @@ def cfg_name (c):
                              "/opcode" if c.get("opcode") else "", "/rotate" if c.get("rotate") else "",
                              ("/via-schedule" if c.get("via") else "") + ("/reyield" if c.get("reyield") else "")
                              + ("/real-pinger" if c.get("real_pinger") else "") + ("/raiser-" + c["raiser"] if c.get("raiser") else "")
-                             + ("/via-core" if c.get("via_core") else "") + ("/calls%d" % c["calls"] if c.get("calls", 0) > 3 else "")
+                             + ("/via-core" if c.get("via_core") else "") + (("/calls%d" % c["calls"] if c.get("threads", 2) == 1 else "/%d-threads-calls%d" % (c.get("threads", 2), c["calls"])) if c.get("calls", 0) > 3 else "")
                              + ("/failing-tasks" if c.get("bad") else "") + ("/2-foreign-threads" if c.get("scen") == "sync" and c.get("threads", 1) > 1 else ""))
 
 
@@ -372,20 +616,39 @@ def run (cfg):
       items.append((ci, cs[ci], kids[i:i+n]))
   for r in pmap(_worker, items, cfg.workers, seed=cfg.seed):
     rep.merge(r)
+  # S6: piles of hand-overs (sequential)
+  rep.merge(run_piles(cfg))
   # S5: cooperative locks (sequential)
   from mc.props import c07_locks
-  rep.merge(c07_locks.run_locks(cfg))
+  if not cfg.only or "lock" in cfg.only:
+    rep.merge(c07_locks.run_locks(cfg))
   rep.rule = ("controlled-thread exploration of the real recoco scheduler: scenarios callLater (2 foreign threads x 2 calls), "
               "wake (task woken by 2 foreign threads + a sibling task), synchronized (foreign thread, nested, 2 rounds, 2 worker tasks), "
               "idle/wake-up handshake (new tasks via fast start and via schedule), each with threaded and inline select hub; "
               "scheduling points = line events in the hand-off functions (deviation bound 2; thorough 3) or in all "
               "of recoco.py (bound 1; thorough 2) plus every Lock/Event/Queue/select/pinger operation; every schedule within the bound "
-              "is executed; cooperative Lock: every program of 2-3 tasks x acquire/release scripts on 1-2 locks with every waiter-pop choice. "
-              "distinct = (scenario, hub, verdict, observation)")
-  rep.bound = dict(configs=len(cs), scheduling_points_default_schedule=pts)
+              "is executed.  Piles of pending work on the library's real pipe pinger (modelled pipes of 65536 bytes), the scheduler "
+              "stepped by hand until it would sleep: one pile of every size 1,2,3 and 2^k-1,2^k,2^k+1 (k=2..16, <= 65536) of call-later "
+              "functions handed over by a foreign thread / by a cooperative task in one slice / by a handed-over function from inside the "
+              "drain loop, and (<= 4097) of new tasks started / blocked tasks woken with schedule() by a foreign thread; two piles "
+              "(sizes 1,1023,1024,1025,2049, piles of tasks 1,1024,1025; thorough 10 resp. 6 sizes, all source pairs, three piles) with the "
+              "second arriving after 0..8 scheduler steps or at rest; the same piles of 1023..4097 (thorough ..16385) calls from one and 1025 from each of two controlled foreign "
+              "threads with both hubs (default schedule).  "
+              "Cooperative Lock against an owner-less reference lock: every `owned' program of 2-3 tasks x acquire/try-acquire/release/yield "
+              "scripts on 1-2 locks (a script releases only what it took), and every free-form program - any task may release, locks created "
+              "free or held (Lock(locked=True)), acquire/release also done inside a task_function helper (another task object): "
+              "2 tasks x scripts <= 3 ops and 3 tasks x scripts <= 2 ops on one lock, 2 tasks x scripts <= 2 ops on two locks - each with every "
+              "waiter-pop choice.  distinct = (scenario, hub, verdict, observation)")
+  rep.bound = dict(configs=len(cs), scheduling_points_default_schedule=pts,
+                   pile_sizes=pile_lattice(PIPE_CAP), pile_plans=rep.extra.get("pile_plans"), lock_programs=rep.extra.get("lock_programs"))
   rep.assumptions = ["C-level atomicity of deque/dict/list operations (CPython GIL)",
                      "modelled Lock/Event/Queue/select/pinger semantics (mc/thr.py); polling timeouts are never fired while work is pending",
-                     "no partial-order reduction: counts are schedules, not equivalence classes"]
+                     "no partial-order reduction: counts are schedules, not equivalence classes",
+                     "piles: a pipe holds 65536 bytes and a read returns min(asked, pending) bytes; the work arrives while the scheduler "
+                     "thread is between two steps (no interleaving inside a step - that is the controlled-thread part); more pending "
+                     "wake-up bytes than a pipe holds are out of the bound",
+                     "locks: the reference is a lock without owner (the documented `semantics of the Python Lock'); what becomes of a task "
+                     "that releases a lock which is free by the reference is not judged"]
   return rep
 
 
@@ -393,6 +656,10 @@ def replay (cfg, data):
   if "locks" in data:
     from mc.props import c07_locks
     return c07_locks.replay_locks(data)
+  if data.get("pile"):
+    plan = tuple(tuple(b) for b in data["plan"])
+    bad, obs = s_pile(plan)
+    return bool(bad), "%s %r\n=> %r (functions run, pipe reads: %r)" % (pile_name(plan), plan, bad, obs)
   c = dict(data["config"])
   if c.get("funcs") is not None: c["funcs"] = tuple(c["funcs"])
   gc.disable()
